@@ -21,7 +21,7 @@ RULE = ("17 boundary worlds first (one block / one leaf; syncer behind the final
         "exit roots included), 1-5 claims from mainnet and from three rollups (ids 1, 2, 5) with genuine proofs read from real bridge "
         "stores and the real rollup exit tree, every fifth case from a separate stream with claims outside the quantifier (GER beyond "
         "the finalized root, unknown GER, inconsistent GER). Each case runs the real PP flow end to end and a direct "
-        "getImportedBridgeExits call against a named (often older) recorded root. A case is non-trivial when a certificate was built "
+        "getImportedBridgeExits call against a named (often older) recorded root, asks the real guard of the aggchain-prover flow about (named root, claims), and, where the finalized block is at or beyond the second L1 block, runs again after a warm-up attempt of the same querier on an older finalized block (as scripted, and with the finalized query failing). A case is non-trivial when a certificate was built "
         "that contains at least one imported exit whose claim lies in the quantifier (GER at or below the finalized root), or the "
         "direct call returned exits of which at least one verifies; distinct = distinct input")
 ASSUMPTIONS = [
@@ -147,10 +147,11 @@ def coq_case(o):
     fin = "None" if o.get("fin") is None else "(Some (%s, %s))" % (cN(o["fin"]["num"]), b.h(o["fin"]["hash"]))
     hdrs = clist(["(%s, %s)" % (cN(h["num"]), b.h(h["hash"])) for h in o.get("hdrs") or []])
     named = "(Some %s)" % b.h(o["named"]) if o.get("named") else "None"
-    term = "mkCase %s %s %s %s %s %s %s %s" % (
-        clist(blocks), fin, hdrs, clist([c_claim(b, c) for c in o.get("claims") or []]), named,
+    guard = "(Some %s)" % cbool(o["guard"] == "ok") if o.get("named") and o.get("guard") else "None"
+    term = "mkCase %s %s %s %s %s %s %s %s %s %s" % (
+        clist(blocks), fin, cbool(bool(o.get("fin_fails"))), hdrs, clist([c_claim(b, c) for c in o.get("claims") or []]), named,
         clist([cbool(r == "ok") for r in o.get("l1res") or []]),
-        c_obs(b, o["pp"]), c_obs(b, o["direct"], direct=True) if o.get("named") else "ONoCert")
+        c_obs(b, o["pp"]), c_obs(b, o["direct"], direct=True) if o.get("named") else "ONoCert", guard)
     return b.wrap(term)
 
 
@@ -176,7 +177,7 @@ def finding_key(o):
 
 
 def distribution(outs):
-    d = {"cases": len(outs), "tags": {}, "pp": {}, "direct": {}, "claims_by_stream": {}, "imported_mainnet": 0, "imported_rollup": 0,
+    d = {"cases": len(outs), "tags": {}, "pp": {}, "direct": {}, "guard": {}, "claims_by_stream": {}, "imported_mainnet": 0, "imported_rollup": 0,
          "l1_blocks": 0, "l1_info_events": 0, "l1_verify_batches_events": 0, "l1_blocks_failed": 0,
          "claims_roundtrip_through_real_l2_store_ok": 0, "harness_errors": 0,
          # real behaviour outside the quantifier (not a violation): exits sent with a GER->L1-root proof that does not verify
@@ -201,6 +202,8 @@ def distribution(outs):
         for c in o.get("claims") or []:
             s = c.get("stream", "")
             d["claims_by_stream"][s] = d["claims_by_stream"].get(s, 0) + 1
+        g = (o.get("guard") or "not_asked") + ("_%d_claims" % min(len(o.get("claims") or []), 3))
+        d["guard"][g] = d["guard"].get(g, 0) + 1
         for name in ("pp", "direct"):
             ob = o[name]
             k = ob["kind"] + (":" + ob["err"] if ob.get("err") else "")
